@@ -446,8 +446,27 @@ func ruleReverseGroups(c *Ctx) {
 							replyP[callee.Params[i]] = true
 						}
 					}
+					// ... or the whole option struct: its WITHSCORES field is read inside
+					optStruct := false
+					for i, a := range call.Common().Args {
+						if i >= len(callee.Params) {
+							break
+						}
+						if st, ok := a.Type().Underlying().(*types.Struct); ok {
+							for k := 0; k < st.NumFields(); k++ {
+								if st.Field(k).Name() == "WITHSCORES" {
+									optStruct = true
+								}
+							}
+						}
+					}
 					if len(withP) > 0 && len(replyP) > 0 {
 						scan(callee, func(v ssa.Value) bool { return withP[v] }, func(v ssa.Value) bool { return replyP[v] }, depth+1)
+					} else if optStruct && len(replyP) > 0 {
+						scan(callee, func(v ssa.Value) bool {
+							_, f, _, ok := fieldOf(v)
+							return ok && f == "WITHSCORES"
+						}, func(v ssa.Value) bool { return replyP[v] }, depth+1)
 					}
 					return
 				}
@@ -519,7 +538,7 @@ func ruleDerivedSignatures(c *Ctx) {
 		n++
 		sig := extractSignature(c.P, e)
 		want := table[name]
-		if sig.String() == want {
+		if normSig(sig.String()) == normSig(want) {
 			c.ok(rid, "executor:"+name, c.P.pos(e.Fn.Pos()), sig.String())
 		} else {
 			c.bad(rid, "executor:"+name, c.P.pos(e.Fn.Pos()), "the derived command does not call the primitives as the table says", "extracted: "+sig.String(), "expected:  "+want, firstDiff(sig.String(), want))
